@@ -15,6 +15,11 @@ Streams (domain `lh`, see ocaml/drv_lh.ml for the line formats):
      the headers offer: json_object_object_foreach exists in a GNU form and a portable strict-ISO-C
      form (harness/drv_lh_ansi.c is compiled as such an application); both are compared after
      every step and both are used for delete-current-while-iterating (ops x / y);
+     a key is its bytes, never its address: every key handed to the library is a private copy of
+     the text at a scripted byte offset 0..7 from an 8-aligned base (@off; the lookups after each
+     step rotate through all offsets; exact-size blocks, overwritten and freed after the call), key
+     lengths sweep 0..40 with pairwise distinct bytes, every lookup entry point (op g);
+  H  the string hash functions themselves on the same bytes at the 8 offsets and in a heap duplicate;
   L  the load-factor expression `count >= size * 0.66` against the model's binary64 emulation.
 
 The direct oracle is an ordered-dict model of the property text, applied to the
@@ -38,6 +43,8 @@ ASSUMPTIONS = ["binary64 round-to-nearest-even arithmetic for `size * 0.66` (SSE
                "66*size <= 100*count for 1 <= size <= INT_MAX)",
                "t->equal_fn is an equality on keys (strcmp for objects); calloc returns zeroed memory",
                "JSON_C_OBJECT_ADD_KEY_IS_NEW is used only for absent keys (documented precondition)",
+               "the hash of a key is a function of its byte sequence (the models' `hash : key -> Z`): validated on every run by "
+               "stream H and by the offset sweep of stream B-key-bytes",
                "lh_kchar_table_new copies the hash selection current at creation into the table (modelled: LhModel.gstep; proved: "
                "C06_world_history_refines; checked: ops h / o)"]
 
@@ -415,6 +422,110 @@ def gen_fdel(rng, tier):
     return out
 
 
+def distinct_key(rng, n, used):
+    """a key of n pairwise distinct bytes (so that every byte position matters to any hash), from
+    the alphabet that needs no escaping in the serialized text"""
+    while True:
+        k = "".join(rng.sample(ALPHA, n))
+        if k not in used:
+            return k
+
+
+def gen_keybytes(rng, tier):
+    """a key is identified by its bytes, never by its address: key lengths sweep 0..40 (every
+    residue modulo 12 - the block size of lookup3 - in every case, several blocks), all bytes of a
+    key distinct; every add / replace / get / delete passes its own copy of the key text at its own
+    byte offset 0..7 from an 8-aligned base; small initial sizes, so that the stored (strdup'ed)
+    copies are rehashed on growth; default hash and perl-like hash"""
+    out = []
+    n = 70 if tier == "quick" else 900
+    for ci in range(n):
+        hsel = rng.choice([0, 0, 0, 1, 1, 2])
+        lens = []
+        for r in range(12):
+            cands = [l for l in (r, r + 12, r + 24, r + 36) if l <= 40]
+            lens.append(rng.choice(cands))
+        lens += [rng.choice([11, 23, 35]), rng.randint(1, 40), rng.randint(1, 40)]
+        rng.shuffle(lens)
+        keys, used = [], set()
+        for l in lens:
+            if l == 0 and "" in used:
+                l = 12
+            k = distinct_key(rng, l, used)
+            used.add(k); keys.append(k)
+        nk = len(keys)
+        size = rng.choice([1, 2, 3, 4, 8, 16])
+        ktoks = []
+        for k in keys:
+            hx = k.encode("latin-1").hex() or "-"
+            if hsel == 2:
+                hx += "@%d" % rng.randrange(1 << 16)
+            ktoks.append(hx)
+        ops = []
+        live = set()
+        val = 0
+        order = list(range(nk))
+        rng.shuffle(order)
+        for k in order:
+            val += 1
+            offs = rng.sample(range(8), 8)
+            flags = rng.choice([0, 0, 0, 1, 2, 3])
+            ops.append("a%d,%d,%d@%d" % (k, val, flags, offs[0])); live.add(k)
+            for o in offs[1:rng.randint(2, 5)]:
+                ops.append("g%d@%d" % (k, o))
+            r = rng.random()
+            if r < 0.5:
+                val += 1
+                ops.append("a%d,%d,%d@%d" % (k, val, rng.choice([0, 0, 2]), offs[5]))
+            elif r < 0.7:
+                ops.append("d%d@%d" % (k, offs[6])); live.discard(k)
+                ops.append("g%d@%d" % (k, offs[7]))
+            if live and rng.random() < 0.4:
+                j = rng.choice(sorted(live))
+                ops.append("g%d@%d" % (j, rng.randrange(8)))
+        for k in rng.sample(range(nk), nk // 2):
+            if rng.random() < 0.5:
+                ops.append("d%d@%d" % (k, rng.randrange(8))); live.discard(k)
+            else:
+                val += 1
+                ops.append("a%d,%d,0@%d" % (k, val, rng.randrange(8))); live.add(k)
+        out.append(("lh B %d %d 0 %s %s" % (hsel, size, ",".join(ktoks), ";".join(ops)), {"kind": "B-key-bytes"}))
+    return out
+
+
+def gen_hash(rng, tier):
+    """the direct hash oracle: both string hashes on the same bytes at all 8 offsets (+ a heap
+    duplicate): lengths 0..40 each, longer keys sampled; distinct bytes, any value 1..255"""
+    out = []
+    for hsel in (0, 1):
+        for rep in range(2 if tier == "quick" else 20):
+            ks = []
+            for l in list(range(0, 41)) + [rng.randint(41, 120) for _ in range(8)]:
+                ks.append(bytes(rng.sample(range(1, 256), l)).hex() or "-")
+            out.append(("lh H %d %s" % (hsel, ",".join(ks)), {"kind": "H-hash-address"}))
+    return out
+
+
+def add_offsets(cases, orng):
+    """every add / delete of a mode B history passes its key at its own offset; extra explicit
+    lookups (all entry points) are sprinkled in"""
+    res = []
+    for line, meta in cases:
+        p = line.split(" ")
+        if p[1] != "B":
+            res.append((line, meta)); continue
+        nk = len(p[5].split(","))
+        ops = []
+        for op in p[6].split(";"):
+            if op[0] in "ad" and "@" not in op:
+                op += "@%d" % orng.randrange(8)
+            ops.append(op)
+            if orng.random() < 0.08:
+                ops.append("g%d@%d" % (orng.randrange(nk), orng.randrange(8)))
+        res.append((" ".join(p[:6] + [";".join(ops)]), meta))
+    return res
+
+
 def gen_l(rng, tier):
     out = [("lh L 1 4096 1", {"kind": "L-load-factor"}),
            ("lh L 50 2147483600 1048583", {"kind": "L-load-factor"}),     # step prime: all residues mod 50
@@ -428,7 +539,10 @@ def gen_l(rng, tier):
 
 
 def gen(rng, tier):
-    return gen_l(rng, tier) + gen_env(rng, tier) + gen_fdel(rng, tier) + gen_exhaustive(rng, tier) + gen_churn_a(rng, tier) + gen_b(rng, tier)
+    import random as _random
+    cases = (gen_l(rng, tier) + gen_env(rng, tier) + gen_fdel(rng, tier) + gen_exhaustive(rng, tier)
+             + gen_churn_a(rng, tier) + gen_b(rng, tier) + gen_keybytes(rng, tier) + gen_hash(rng, tier))
+    return add_offsets(cases, _random.Random(rng.random()))
 
 
 # ------------------------------------------------------------------ direct oracle
@@ -446,6 +560,17 @@ def oracle(line, meta, impl):
         return ("crash", "no output for this case (the driver died)")
     parts = line.split(" ")
     mode = parts[1]
+    if mode == "H":
+        # the hash of a key is a function of its bytes
+        toks = impl.split(",")
+        if len(toks) != len(parts[3].split(",")):
+            return ("malformed", "unexpected driver output: " + impl[:100])
+        for i, t in enumerate(toks):
+            if t != "ok":
+                key = parts[3].split(",")[i]
+                return ("hash-depends-on-address", "string hash %s of key %s (length %d) depends on where the bytes lie: %s"
+                        % (parts[2], key[:90], 0 if key == "-" else len(key) // 2, t))
+        return None
     if mode == "L":
         # the property-level content of the load-factor expression: growth happens at the least
         # count with 100*count >= 66*size
@@ -477,6 +602,8 @@ def oracle(line, meta, impl):
             return ("malformed", "unexpected step output: " + st[:120])
         ret, length, _size, look, it = t[0], t[1], t[2], t[3], t[4]
         op = ops[si - 1] if si > 0 else "new"
+        opfull = op
+        op = op.split("@")[0]          # @off: where the caller's key text lies; irrelevant to the property
         if it.startswith("ITERDIFF"):
             return ("iter-mechanisms-differ", "iteration mechanisms disagree after %s: %s" % (op, it[:200]))
         if si > 0:
@@ -518,6 +645,12 @@ def oracle(line, meta, impl):
                     return ("foreach-delete", "delete-while-iterating visited %s, expected %s at op %d (%s)" % (ret, want, si, op))
                 for k in ks:
                     d.pop(k, None)
+            elif c == "g":
+                k = int(body)
+                if ret.startswith("GETDIFF"):
+                    return ("lookup-mechanisms-differ", "lookup entry points disagree at op %d (%s): %s" % (si, opfull, ret))
+                if ret != d.get(k, "-"):
+                    return ("lookup", "lookup of key %d gives %s, expected %s at op %d (%s)" % (k, ret, d.get(k, "-"), si, opfull))
             elif c == "z":
                 if ret not in ("0", "-1"):
                     return ("ret", "resize returned %s" % ret)
@@ -560,7 +693,7 @@ def classify(line, meta, mo, co):
 
 
 def nontrivial(line, meta, impl):
-    if line.startswith("lh L"):
+    if line.startswith("lh L") or line.startswith("lh H"):
         return line
     steps = impl.split(" | ")
     sizes = set()
@@ -611,7 +744,7 @@ def search(rng, broken_lines):
         if p[1] == "A":
             for size in range(1, 9):
                 extra.append((" ".join(p[:2] + [str(size)] + p[3:]), {"kind": "search"}))
-    extra += gen_env(rng, "quick") + gen_fdel(rng, "quick") + gen_churn_a(rng, "quick") + gen_b(rng, "quick") + gen_exhaustive(rng, "quick")[:6000]
+    extra += gen_keybytes(rng, "quick") + gen_hash(rng, "quick") + gen_env(rng, "quick") + gen_fdel(rng, "quick") + gen_churn_a(rng, "quick") + gen_b(rng, "quick") + gen_exhaustive(rng, "quick")[:6000]
     return extra
 
 
